@@ -3,4 +3,7 @@ CONSTANTS
   K = 3
   TokSel = "ends"
   RangeTokSel = "mid"
-INVARIANTS ClassesOK Emit
+  QuadTokSel = "mid"
+  SecClasses = {"docStart", "tokStart", "lastPlus", "max"}
+  ListMax = 3
+INVARIANTS ClassesOK ShapeOK Emit
